@@ -181,7 +181,7 @@ def impl_obs(case):
         probs.append({"route": "json.dumps -> json.loads", "exc": f"{type(e).__name__}: {str(e)[:200]}"})
     obs["json_text"] = probs
     # zarr attributes, both formats, MemoryStore
-    zp = []
+    zp, zc = [], []
     for fmt in (2, 3):
         try:
             store = MemoryStore()
@@ -196,8 +196,14 @@ def impl_obs(case):
             attrs = dict(zarr.open_group(store, mode="r").attrs)
             if not _same(back, obj):
                 zp.append({"fmt": fmt, "what": "object differs", "back": mc.canon(mc.enc(back.model_dump()))})
-            if mc.canon(mc.enc(attrs.get("geff"))) != obs["dump"]:
-                zp.append({"fmt": fmt, "what": "stored geff attribute is not the dump"})
+            stored = attrs.get("geff")
+            if mc.canon(mc.enc(stored)) != obs["dump"]:
+                # not a violation by itself (the model says: what is stored is the dump) ...
+                zc.append({"fmt": fmt, "what": "stored geff attribute is not model_dump(mode='json')",
+                           "stored": mc.canon(mc.enc(stored))})
+                # ... unless the stored form does not validate against the published schema
+                if not verdicts({"geff": stored})[0]:
+                    zp.append({"fmt": fmt, "what": "stored geff attribute does not validate against geff-schema.json"})
             rest = {k: v for k, v in attrs.items() if k != "geff"}
             if mc.canon(mc.enc(rest)) != mc.canon(mc.enc(foreign)):
                 zp.append({"fmt": fmt, "what": "foreign attributes changed", "attrs": mc.canon(mc.enc(rest))})
@@ -232,6 +238,7 @@ def impl_obs(case):
         except Exception as e:  # noqa: BLE001
             zp.append({"what": "directory store / geff info", "exc": f"{type(e).__name__}: {str(e)[:200]}"})
     obs["zarr"] = zp
+    obs["zarr_corr"] = zc
     # schema
     inst = {"geff": d}
     vp, ve = verdicts(inst)
@@ -317,7 +324,9 @@ def judge(ck, case, im):
         ck.fail("C08:json-text-roundtrip", f"JSON text does not read back to an equal object ({p['route']})", case, p, "equal object")
         break
     for p in im["zarr"]:
-        key = "C08:foreign-attrs-changed" if "foreign" in p.get("what", "") else "C08:zarr-attrs-roundtrip"
+        what = p.get("what", "")
+        key = ("C08:foreign-attrs-changed" if "foreign" in what else "C08:json-text-roundtrip" if "geff info" in what
+               else "C08:stored-attrs-invalid-against-schema" if "does not validate" in what else "C08:zarr-attrs-roundtrip")
         ck.fail(key, f"zarr attributes (format {p.get('fmt')}): {p.get('what') or p.get('exc')}", case, p, "equal object, foreign attributes preserved")
         break
     if not im["schema"]["published"]:
@@ -341,9 +350,9 @@ def run(ck: common.Check):
     s = schemas()
     ck.extra["schemas_identical_as_documents"] = s["published"] == s["exported"]
     cases = list(corpus())
-    nmut = 12 if ck.quick else 25
+    nmut = 10 if ck.quick else 20
     docs = exhaustive_presence() + units_and_types()
-    nrand = 1200 if ck.quick else 50000
+    nrand = 700 if ck.quick else 9000
     docs += [mc.gen_doc(ck.rng) for _ in range(nrand)]
     for i, d in enumerate(docs):
         foreign = mc.gen_extra(ck.rng) if ck.rng.random() < 0.7 else {}
@@ -352,7 +361,7 @@ def run(ck: common.Check):
                       "disk": i % (60 if ck.quick else 120) == 7,
                       "mut_idx": [ck.rng.randrange(10 ** 6) for _ in range(nmut)]})
     # the first documents get *all* their mutations
-    for c in cases[: (6 if ck.quick else 40)]:
+    for c in cases[: (5 if ck.quick else 40)]:
         if "doc" in c:
             c["mut_idx"] = None
     impl = common.pmap(impl_obs, cases, chunksize=16)
@@ -369,7 +378,7 @@ def run(ck: common.Check):
                 e = mc.enc(m["inst"])
             except TypeError:
                 continue
-            reqs.append({"op": "validate", "env": mc.make_env(m["inst"]), "which": "published", "inst": e})
+            reqs.append({"op": "validate", "env": mc.make_env_light(m["inst"]), "which": "published", "inst": e})
             owners.append((idx, "mut", mi))
     model = drv.ask(reqs)
     if model is None:
@@ -397,6 +406,8 @@ def run(ck: common.Check):
                     continue
                 if mc.canon(mo["dump"]) != im["dump"]:
                     ck.corr_broken("C08:dump", c["doc"], im["dump"], mc.canon(mo["dump"]))
+                for zc in im.get("zarr_corr", [])[:1]:
+                    ck.corr_broken("C08:stored-attribute-is-dump", c["doc"], zc, "stored attribute = dump")
                 if mo["valid"] != (im["viol"] == "valid"):
                     ck.corr_broken("C08:lean-spec-vs-python-oracle", c["doc"], im["viol"], mo["valid"])
                 if im["viol"] == "valid":
